@@ -6,6 +6,19 @@ Problem dict: {"n": n, "clue_row": [...], "clue_column": [...]}; clue >= 0 is a 
 Answer keys: the n x n grid, row-major, 0 = black cell, v >= 1 = number v.
 Well-formed: n >= 2 (a line of one cell cannot hold two blacks, so n = 1 is not a board of this puzzle; n = 2 is the
 degenerate all-black board whose only possible clue is 0), clues in -1..(n-2)(n-1)/2.
+
+Shape descriptors: n (all clue layouts by the cap rule over grids(n), n <= 5) and ("large", n, level) with level 0 =
+quick / 1 = thorough for n = 5, 6, 7 (sums up to 6, 10, 15): the clue-free board (n = 5 only, 66240 answers), single
+clues 0 and the maximum on the far lines (n = 5), and clue sets derived from answers G - of the first 3000 answers
+found with a scrambled candidate order the one with the largest total of sums and the one with the fewest sums 0, and
+the same choice on the board whose first and far row and column carry the maximum sum; for n = 5 in the thorough tier
+also evenly spaced ones of the complete list -: all 2n sums of G, the sums minus every k-th clue, rows only / columns
+only / far lines only (n = 5), all but the far lines, and one clue changed by +1 / -1 (first, last, middle, ends of
+both lists), as is and with some other clues blanked.  Sum 0 (adjacent black cells) is so weak a clue that even the full
+set of a typical 6 x 6 board has a dozen answers; that is why G is picked for large sums.
+Oracle for the large family: search() - backtracking over the rules (one admissible filling per row and per column,
+agreeing in every cell; complete boards re-checked with between()) returning ALL answers; selftest() compares it with
+the grids() filter on n <= 5.
 """
 
 import itertools
@@ -76,13 +89,237 @@ def grids_with(n, i, c):
     return _BY_SUM[n].get((i, c), [])
 
 
+_LINES = {}
+
+
+def _lines(n):
+    """(all fillings of one line, their between-sums, has[x][v] = bit set of the fillings with entry v at position x)."""
+    if n not in _LINES:
+        content = [0, 0] + list(range(1, n - 1))
+        lines = sorted(set(itertools.permutations(content)))
+        sums = [between(l) for l in lines]
+        has = [[0] * (n - 1) for _ in range(n)]
+        for j, l in enumerate(lines):
+            for x in range(n):
+                has[x][l[x]] |= 1 << j
+        _LINES[n] = (lines, sums, has)
+    return _LINES[n]
+
+
+def search(n, clue_row, clue_column, descending=False):
+    """Generator of ALL boards obeying the rules and the clues (row-major tuples).
+
+    Every row and every column is one of the line fillings (two black cells, every number once) whose between-sum
+    equals its clue, and a board is a choice of one filling per row and per column that agree in every cell.  The
+    search places rows, always an open row with the fewest fillings left; after a placement every column keeps the
+    fillings that show the placed entry at that row, and every open row loses the fillings with an entry that no
+    remaining filling of the crossing column shows there.  A row or column without fillings ends the branch.  Complete
+    boards are checked once more against the rules (content of every line, sums).  `descending` only changes the
+    order in which fillings are tried: True = reversed, an integer K = sorted by (index * K) mod (number of
+    fillings), which makes the first boards found look like typical ones instead of the lexicographically smallest."""
+    lines, sums, has = _lines(n)
+    content = [0, 0] + list(range(1, n - 1))
+    everything = (1 << len(lines)) - 1
+
+    def fitting(clue):
+        if clue < 0:
+            return everything
+        m = 0
+        for j in range(len(lines)):
+            if sums[j] == clue:
+                m |= 1 << j
+        return m
+
+    rm0 = [fitting(clue_row[y]) for y in range(n)]
+    cm0 = [fitting(clue_column[x]) for x in range(n)]
+    propagate = any(c >= 0 for c in list(clue_row) + list(clue_column))
+    rows = [None] * n
+
+    def indices(m):
+        out = []
+        while m:
+            low = m & -m
+            out.append(low.bit_length() - 1)
+            m ^= low
+        if descending is True:
+            out.reverse()
+        elif descending:
+            out.sort(key=lambda j: (j * descending) % len(lines))
+        return out
+
+    def final_ok():
+        cols = list(zip(*rows))
+        for i in range(n):
+            if sorted(rows[i]) != content or sorted(cols[i]) != content:
+                return False
+            if clue_row[i] >= 0 and between(rows[i]) != clue_row[i]:
+                return False
+            if clue_column[i] >= 0 and between(cols[i]) != clue_column[i]:
+                return False
+        return True
+
+    def rec(open_rows, rm, cm):
+        if not open_rows:
+            if final_ok():
+                yield tuple(v for r in rows for v in r)
+            return
+        if propagate:
+            y = min(open_rows, key=lambda q: (bin(rm[q]).count("1"), q))
+        else:
+            y = open_rows[0]
+        rest = [q for q in open_rows if q != y]
+        for j in indices(rm[y]):
+            l = lines[j]
+            cm2 = [cm[x] & has[y][l[x]] for x in range(n)]
+            if not all(cm2):
+                continue
+            rm2 = list(rm)
+            ok = True
+            for q in rest:
+                m = rm2[q]
+                for x in range(n):
+                    cx = cm2[x]
+                    hq = has[q]
+                    for v in range(n - 1):
+                        if not (cx & hq[v]):
+                            m &= ~has[x][v]
+                if not m:
+                    ok = False
+                    break
+                rm2[q] = m
+            if not ok:
+                continue
+            rows[y] = l
+            for g in rec(rest, rm2, cm2):
+                yield g
+            rows[y] = None
+
+    return rec(list(range(n)), rm0, cm0)
+
+
+def sums_of(n, g):
+    rows = [g[y * n : (y + 1) * n] for y in range(n)]
+    return [between(r) for r in rows] + [between(c) for c in zip(*rows)]
+
+
+_ALL = {}
+_SEEDS = {}
+
+
+def all_boards(n):
+    if n not in _ALL:
+        _ALL[n] = list(search(n, [-1] * n, [-1] * n))
+    return _ALL[n]
+
+
+def seed_boards(n, level):
+    key = (n, level)
+    if key in _SEEDS:
+        return _SEEDS[key]
+    top = (n - 2) * (n - 1) // 2
+    none = [-1] * n
+    frame = [top] + none[1:-1] + [top]
+    out = []
+    if n <= 5:
+        allb = all_boards(n)
+        if level:
+            out += [allb[(len(allb) - 1) * j // 7] for j in range(8)]
+    # strongly clued boards: among the first 3000 boards found with a scrambled candidate order the one with the
+    # largest total of sums and the one with the fewest sums 0 (sum 0 = adjacent black cells is the weakest clue and
+    # boards full of them have 1e5 twins); boards with the maximum sum on the frame
+    for k in ([7919] if level == 0 else [7919, 104729, 1299709]):
+        first = list(itertools.islice(search(n, none, none, descending=k), 3000))
+        out.append(max(first, key=lambda g: (sum(sums_of(n, g)), g)))
+        out.append(max(first, key=lambda g: (-sums_of(n, g).count(0), sum(sums_of(n, g)), g)))
+        if level and n <= 6:
+            out.append(first[0])
+    for k in ([7919] if level == 0 else [7919, 104729]):
+        first = list(itertools.islice(search(n, frame, frame, descending=k), 3000))
+        if first:  # n = 3 has no such board
+            out.append(max(first, key=lambda g: (-sums_of(n, g).count(0), sum(sums_of(n, g)), g)))
+    res = []
+    for g in out:
+        if g not in res:
+            res.append(g)
+    _SEEDS[key] = res
+    return res
+
+
+def large_instances(n, level):
+    """Clue lists (2n values: rows, then columns) of the large family."""
+    top = (n - 2) * (n - 1) // 2
+    seen = set()
+    out = []
+
+    def emit(c):
+        c = list(c)
+        if tuple(c) not in seen:
+            seen.add(tuple(c))
+            out.append(c)
+
+    if n <= 5:
+        emit([-1] * (2 * n))
+        for i in (n - 1, 2 * n - 1):
+            for v in (top, 0, top - 1):
+                c = [-1] * (2 * n)
+                c[i] = v
+                emit(c)
+        c = [-1] * (2 * n)
+        c[n - 1] = c[2 * n - 1] = top
+        emit(c)
+    seeds = seed_boards(n, level)
+    if n >= 7:
+        level = 0  # order 7: more boards in the thorough tier, but only the dense selection of clue sets
+    for gi, g in enumerate(seeds):
+        full = sums_of(n, g)
+        emit(full)
+        if n >= 7 and len(seeds) <= 3 and gi > 0:  # quick tier, order 7: only the full sets of the further boards
+            continue
+        if n <= 5:
+            ks = [2, 3] if level == 0 else [2, 3, 4, 5, 6]
+        else:  # order 6 and 7 keep to dense sets: half of the clues leave up to 1e6 answers
+            ks = [3, 5] if level == 0 else [3, 4, 5, 6, 7]
+        for k in ks:
+            for o in ([0] if level == 0 else [0, 1]):
+                emit([-1 if i % k == o else v for i, v in enumerate(full)])
+        if n <= 5 and (level or gi % 2 == 0):
+            emit([v if i < n else -1 for i, v in enumerate(full)])  # rows only
+            emit([v if i >= n else -1 for i, v in enumerate(full)])  # columns only
+            emit([v if i % n == n - 1 else -1 for i, v in enumerate(full)])  # far lines only
+        if level or gi % 2 == 0:
+            emit([-1 if i % n == n - 1 else v for i, v in enumerate(full)])  # all but the far lines
+        spots = [0, 2 * n - 1, n - 1] if level == 0 else [0, 2 * n - 1, n - 1, n, n // 2, n + n // 2]
+        if level == 0 and n >= 6:
+            spots = [2 * n - 1, 0] if gi == 0 else [n - 1]
+        for pos in spots:
+            for d in (1, -1):
+                w = full[pos] + d
+                if 0 <= w <= top:
+                    c = list(full)
+                    c[pos] = w
+                    if level or d == 1:
+                        emit(c)
+                    if n <= 5:
+                        emit([-1 if (j % 2 != pos % 2) else v for j, v in enumerate(c)])
+                    if level or n >= 6:
+                        emit([-1 if (j % 3 == (pos + 1) % 3) else v for j, v in enumerate(c)])
+    return out
+
+
 class Doppelblock(base.Rule):
     name = "doppelblock"
 
     def shapes(self, tier):
-        return [2, 3, 4] if tier == "quick" else [2, 3, 4, 5]
+        if tier == "quick":
+            return [2, 3, 4, ("large", 5, 0), ("large", 6, 0), ("large", 7, 0)]
+        return [2, 3, 4, 5, ("large", 5, 1), ("large", 6, 1), ("large", 7, 1)]
 
     def instances(self, shape, cap):
+        if isinstance(shape, (tuple, list)):
+            _, n, level = shape
+            for c in large_instances(n, level):
+                yield {"n": n, "clue_row": c[0:n], "clue_column": c[n : 2 * n], "family": "large"}
+            return
         n = shape
         top = (n - 2) * (n - 1) // 2
         lays, k = base.layouts(2 * n, -1, list(range(0, top + 1)), cap)
@@ -97,6 +334,10 @@ class Doppelblock(base.Rule):
 
     def readings(self, p):
         clues = list(p["clue_row"]) + list(p["clue_column"])
+        if p.get("family") == "large":
+            if p["n"] <= 5 and not any(c >= 0 for c in clues):
+                return [all_boards(p["n"])]
+            return [list(search(p["n"], p["clue_row"], p["clue_column"]))]
         want = [(i, c) for i, c in enumerate(clues) if c >= 0]
         pool = grids_with(p["n"], want[0][0], want[0][1]) if want else grids(p["n"])
         return [[g for g, sums in pool if all(sums[i] == c for i, c in want)]]
@@ -104,6 +345,29 @@ class Doppelblock(base.Rule):
     def example(self):
         p = {"n": 5, "clue_row": [5, -1, 5, -1, -1], "clue_column": [3, -1, -1, 1, -1]}
         return p, "cspuz/puzzle/doppelblock.py _main() (puzsq.jp pid=10025)"
+
+
+def selftest():
+    assert between((0, 1, 2, 0, 3)) == 3 and between((1, 0, 0, 2, 3)) == 0 and between((0, 3, 2, 1, 0)) == 6
+    assert [len(grids(n)) for n in (2, 3, 4)] == [1, 6, 216]
+    r = Doppelblock()
+    for n in (2, 3, 4, 5):
+        ref_all = grids(n)
+        assert sorted(search(n, [-1] * n, [-1] * n)) == sorted(g for g, s in ref_all), n
+        for g, s in ref_all[:: max(1, len(ref_all) // 7)]:
+            assert sums_of(n, g) == list(s)
+        probs = [(p["clue_row"], p["clue_column"]) for p in r.instances(n, 250 if n == 5 else 2500)]
+        if n == 5:
+            probs = probs[::4]
+        probs += [(c[0:n], c[n:]) for c in large_instances(n, 1 if n < 5 else 0)]
+        for cr, cc in probs:
+            want = [(i, c) for i, c in enumerate(list(cr) + list(cc)) if c >= 0]
+            pool = grids_with(n, want[0][0], want[0][1]) if want else ref_all
+            ref = sorted(g for g, sums in pool if all(sums[i] == c for i, c in want))
+            assert sorted(search(n, cr, cc)) == ref, (n, cr, cc)
+            assert sorted(search(n, cr, cc, descending=True)) == ref, (n, cr, cc)
+    ex, _ = r.example()
+    assert len(list(search(5, ex["clue_row"], ex["clue_column"]))) == 1
 
 
 RULE = Doppelblock()
